@@ -107,6 +107,10 @@ def parse_output(text):
         "covers_total": 0,
         "verification_time_s": None,
     }
+    # only Kani's own report counts (the compiler warnings before it quote source lines of the harness files)
+    k = text.rfind("Checking harness ")
+    if k >= 0:
+        text = text[k:]
     lines = text.splitlines()
     for i, ln in enumerate(lines):
         m = RE_RESULT.search(ln)
@@ -232,7 +236,8 @@ def run_harness(h, cfg, timeout_s, mem_gb, use_cache=True, extra_args=None, log_
         if p.returncode in (124, 137):
             r["status"] = "timeout"
         elif r["status"] == "error":
-            low = text.lower()
+            k = text.rfind("Checking harness ")
+            low = (text[k:] if k >= 0 else text).lower()
             if "out of memory" in low or "bad_alloc" in low or "cannot allocate" in low or "memory exhausted" in low:
                 r["status"] = "oom"
         r.update({"name": name, "cfg": cfg, "reused": False, "wall_s": time.time() - t0,
